@@ -292,6 +292,30 @@ func runC07(ctx *runCtx) {
 			rep.sample(cc)
 		}
 	}
+	// targeted scenarios (run one at a time: they depend on what the process-wide pools hold)
+	nr := 4
+	if ctx.thorough() {
+		nr = 40
+	}
+	for _, sc := range []struct {
+		name string
+		f    func(int) (string, string)
+	}{{"json-pool", jsonPoolScenario}, {"stale-writer", staleWriterScenario}} {
+		sh, w := "", ""
+		func() {
+			defer func() {
+				if r := recover(); r != nil {
+					sh, w = "panic", fmt.Sprint(r)
+				}
+			}()
+			sh, w = sc.f(nr)
+		}()
+		rep.eval("scenario/" + sc.name)
+		rep.count("scenario:" + sc.name)
+		if sh != "" {
+			rep.violate(Violation{Kind: "property", Shape: sh, What: w, Replay: map[string]interface{}{"scenario": sc.name, "rounds": nr}})
+		}
+	}
 	askAndCompare(ctx, lines, expect, what, "pool-model-vs-impl")
 	if raceEnabled {
 		rep.count("race-detector-on")
